@@ -5,6 +5,7 @@
        expressions  EPrim EVar EPart ELit EUse1 EUse2 EDerive EElem EConcat EAnd                               (fexpr)
        statements   SSkip SSeq SDecl SAssign SAssignPart SExpr SBlock SIf SWhile SDoWhile SBreak SContinue  (fstmt;
                     SSeq a b requires that a can fall through: no statements behind an unconditional break/continue)
+     (operators read their operands in place: IUse, accepted because the operand's owner is still owned: use_of_now/_later)
      cexpr_ok / catom_ok / cstmt_ok: the code Own.compile emits passes own_check from every static state related (Rel)
      to the compile-time state, under the loop-context invariant LK (the owners below the alloca counter at loop entry
      are frozen, the scopes from the loop scope upwards hold only younger slots: thr, snap), and leads to a related
@@ -511,6 +512,32 @@ Proof.
   split; intro s; [rewrite in_app_iff|]; tauto.
 Qed.
 
+(* an operand that was just evaluated, or evaluated before one more operand, can be read in place *)
+Lemma use_of_now : forall K ra cst cs1 G G1 T1, expr_post cst cs1 G G1 T1 ra ->
+  own_check K (use_of ra) G1 = Some (Some G1).
+Proof.
+  intros K ra cst cs1 G G1 T1 [R1 [E1 [_ [_ [_ [_ Hra]]]]]]. destruct ra as [|s|p]; unfold use_of; cbn [res_place own_check root res_ok] in *.
+  - reflexivity.
+  - destruct Hra as [_ Ho]. rewrite (proj2 (mem_In s (o_own G1)) Ho). reflexivity.
+  - assert (Ho : In (root p) (o_own G1)) by (apply (r_vars _ _ R1), (ext_vslots _ _ _ _ E1); left; exact Hra).
+    rewrite (proj2 (mem_In _ (o_own G1)) Ho). reflexivity.
+Qed.
+
+Lemma use_of_later : forall K ra rb cst cs1 cs2 G G1 G2 T1 T2,
+  expr_post cst cs1 G G1 T1 ra -> expr_post cs1 cs2 G1 G2 T2 rb ->
+  own_check K (use_of ra) G2 = Some (Some G2).
+Proof.
+  intros K ra rb cst cs1 cs2 G G1 G2 T1 T2 [R1 [E1 [_ [_ [_ [_ Hra]]]]]] [R2 [E2 [_ [_ [F2 _]]]]].
+  destruct ra as [|s|p]; unfold use_of; cbn [res_place own_check root res_ok] in *.
+  - reflexivity.
+  - destruct Hra as [Ht Ho]. pose proof (ext_fresh _ _ _ _ E1 s (or_intror Ht)) as Hs.
+    assert (Ho2 : In s (o_own G2)) by (apply (F2 s); [lia | exact Ho]).
+    rewrite (proj2 (mem_In s (o_own G2)) Ho2). reflexivity.
+  - assert (Ho : In (root p) (o_own G2)).
+    { apply (r_vars _ _ R2), (ext_vslots _ _ _ _ E2). left. apply (ext_vslots _ _ _ _ E1). left. exact Hra. }
+    rewrite (proj2 (mem_In _ (o_own G2)) Ho). reflexivity.
+Qed.
+
 Section Expr.
   Variable inl : nat -> list (option place) -> cstate -> option (instr * res * cstate).
   Variable sg : nat -> option (list (var * mode * bool) * bool).
@@ -536,21 +563,23 @@ Section Expr.
       split. { intros s Hs. apply del_In. split; [exact Hs|]. intro Ed. subst s. exact (Rel_fresh_notdead cst G d R (Nat.le_refl _) Hs). }
       split; [left; reflexivity | apply ins_In; left; reflexivity].
     - (* EUse1 *) destruct (cexpr inl sg e cst) as [[[ia ra] cs1]|] eqn:Ea; [|discriminate H]. inversion H; subst. clear H.
-      destruct (IHe F _ _ _ _ G K Ea R) as [G1 [T1 [C1 P1]]]. exists G1, T1. split; [exact C1|].
+      destruct (IHe F _ _ _ _ G K Ea R) as [G1 [T1 [C1 P1]]]. exists G1, T1.
+      split; [rewrite oc_seq, C1; exact (use_of_now K _ _ _ _ _ _ P1)|].
       destruct P1 as [A1 [A2 [A3 [A4 [A5 [A6 _]]]]]]. repeat (split; [assumption|]). exact Logic.I.
     - (* EUse2 *) apply andb_true_iff in F. destruct F as [Fa Fb].
       destruct (cexpr inl sg e1 cst) as [[[ia ra] cs1]|] eqn:Ea; [|discriminate H].
       destruct (cexpr inl sg e2 cs1) as [[[ib rb] cs2]|] eqn:Eb; [|discriminate H]. inversion H; subst. clear H.
       destruct (IHe1 Fa _ _ _ _ G K Ea R) as [G1 [T1 [C1 P1]]].
       destruct (IHe2 Fb _ _ _ _ G1 K Eb (proj1 P1)) as [G2 [T2 [C2 P2]]].
-      exists G2, (T1 ++ T2). split; [rewrite oc_seq, C1; exact C2|]. eapply post_trans; [exact P1 | exact P2 | exact Logic.I].
+      exists G2, (T1 ++ T2). split; [|eapply post_trans; [exact P1 | exact P2 | exact Logic.I]].
+      cbn [iseq]. rewrite oc_seq, C1, oc_seq, C2, oc_seq, (use_of_later K _ _ _ _ _ _ _ _ _ _ P1 P2). exact (use_of_now K _ _ _ _ _ _ P2).
     - (* EDerive *) destruct (cexpr inl sg e cst) as [[[ia ra] cs1]|] eqn:Ea; [|discriminate H].
       unfold fresh in H. inversion H; subst. clear H.
       destruct (IHe F _ _ _ _ G K Ea R) as [G1 [T1 [C1 P1]]]. pose proof (proj1 P1) as R1.
       pose proof (ext_one cs1 (r_ne _ _ R1)) as E. set (d := c_next cs1) in *.
       assert (W : ~ In d (o_own G1)) by (apply (Rel_fresh_notin cs1 G1 d R1); unfold d; lia).
       exists (give d G1), (T1 ++ [d]). split.
-      + rewrite oc_seq, C1. cbn [own_check]. unfold writable. rewrite (proj2 (mem_false d (o_own G1)) W). reflexivity.
+      + cbn [iseq]. rewrite oc_seq, C1, oc_seq, (use_of_now K _ _ _ _ _ _ P1). cbn [own_check]. unfold writable. rewrite (proj2 (mem_false d (o_own G1)) W). reflexivity.
       + apply (step_new_temp cst cs1 G G1 T1 ra _ d G1 P1 E); auto using (r_sorted _ _ R1), (r_vars _ _ R1), (r_vnd _ _ R1).
         * rewrite add_temp_env. reflexivity.
         * intros s Hs. rewrite add_temp_next. cbn. apply (r_dead_lt _ _ R1) in Hs. lia.
